@@ -236,7 +236,7 @@ def roundtrip_holds(c):
     return True
 
 
-def vary_string_lengths(c, rng):
+def vary_string_lengths(c, rng, lead_blanks=False):
     """Replace some generated strings (always full width) by shorter ones (incl. empty, one byte, 33+ bytes short) or
     longer ones: the encoder pads with blanks / cuts.  Changes c['val_toks'] and c['py_vals'] consistently."""
     changed = 0
@@ -252,6 +252,10 @@ def vary_string_lengths(c, rng):
             nb = (b + b'xyz')[:m]
             if nb.endswith(b' ') or not nb:
                 nb = nb.rstrip(b' ')
+            if lead_blanks and nb and rng.random() < 0.5:
+                # right-justified text: leading blanks are data (trailing ones are padding)
+                nb = (b' ' * rng.randint(1, 3) + nb)[:max(n, 1)]
+                nb = nb.rstrip(b' ') or b' x'[:n]
             toks[k] = 'y' + (nb.hex() or '-')
             c['py_vals'][si][k] = nb
             changed += 1
